@@ -6,7 +6,7 @@ set -u
 cd "$(dirname "$0")/.."
 dir=$1; shift
 git -C /repo diff --quiet || { echo "/repo has local changes; refusing"; exit 2; }
-git -C /repo apply "$dir/patch.diff" || { echo "patch does not apply"; exit 2; }
+git -C /repo apply "$(pwd)/$dir/patch.diff" || { echo "patch does not apply"; exit 2; }
 for p in "$@"; do
   out=$(./check "$p" --tier quick 2>&1); rc=$?
   line=$(echo "$out" | grep -E "^VIOLATION|^OK" | tail -1)
